@@ -16,7 +16,7 @@ def check(ctx):
         'edit histories', 'mtime orderings / convergence of a second run']
     regen.regen_inputs(ctx)
     regen.find_dirs(ctx)
-    regen.cache_replay(ctx)
+    regen.cache_replay(ctx, check_order=True)
     c09.nullable_roundtrip(ctx)
     skip_decision(ctx)
 
